@@ -384,12 +384,18 @@ theorem parseLinkDestination_good (W : WFSegs src segs) {r : BlockReader} {c : B
       have hn := remaining_nonneg F h1.abs.wf
       obtain ⟨r2, c2, g1, g2⟩ := bp_advance W h1 (n := 0) (Int.le_refl _) hn
       have g1' : BlockReader.advance ((0 : Nat) : Int) r1 = .ok r2 := by exact_mod_cast g1
-      simp only [Option.getD_none, destPlain, g1']
+      simp only [Option.getD_none]
+      split
+      · exact ⟨_, r1, c1, rfl, h1⟩
+      simp only [destPlain, g1']
       exact ⟨_, r2, c2, rfl, g2⟩
     | some l =>
       have hb := destPlain_bound _ l (Nat.le_refl _) 0 0
       obtain ⟨r2, c2, g1, g2⟩ := bp_advance_view W h1 hv (n := (destPlain l 0 0 : Int)) (by omega) (by omega)
-      simp only [Option.getD_some, g1]
+      simp only [Option.getD_some]
+      split
+      · exact ⟨_, r1, c1, rfl, h1⟩   -- an open parenthesis is left (repair ce3b6c4): rejected, reader not advanced
+      simp only [g1]
       exact ⟨_, r2, c2, rfl, g2⟩
 
 theorem defAfterDest_goodD (W : WFSegs src segs) {r : BlockReader} {c : BCur} (h : BP src segs r c) (refs : RefMap)
